@@ -22,6 +22,9 @@ package roman
 //@ regex grpH = "(?i)D?C{0,4}|CD|CM"
 //@ regex grpT = "(?i)L?X{0,4}|XL|XC"
 //@ regex grpU = "(?i)V?I{0,4}|IV|IX"
+// the whole language of C10: any number of M, then a hundreds, a tens and a units group
+//@ regex specRoman = "(?i)M*(?:" + grpH + ")(?:" + grpT + ")(?:" + grpU + ")"
+//@ lang [C10.grammar] pattern == specRoman
 //@ pure func ones(w bytes, one byte) int = sum i in 0..5 :: ite(i < len(w) && isSym(w[i], one), 1, 0)
 //@ pure func gval(w bytes, one byte, five byte, ten byte) int = ite(len(w) == 2 && isSym(w[0], one) && isSym(w[1], five), 4,
 //@     ite(len(w) == 2 && isSym(w[0], one) && isSym(w[1], ten), 9, ite(len(w) > 0 && isSym(w[0], five), 5, 0) + ones(w, one)))
